@@ -299,7 +299,7 @@ pub fn run(run: &mut Run) -> &'static str {
     run.proptest_part("twins", RULE, pos_case(6..140), cases, |case: &PosCase, st: &mut Stats| {
         let tp_data: Vec<u16> = match case {
             PosCase::Tape(t) => t.iter().rev().copied().collect(),
-            PosCase::Fen(_) => (0..64u16).map(|i| i.wrapping_mul(40503)).collect(),
+            _ => (0..64u16).map(|i| i.wrapping_mul(40503)).collect(),
         };
         let mut tp = Tape::new(&tp_data);
         for gp in case.positions(Mix::General, 12, st) {
